@@ -27,6 +27,12 @@ func short(d []byte, env int) []byte {
 	if env == 6 {
 		return d[:31]
 	}
+	if env == 7 {
+		f := append([]byte(nil), d...)
+		f[0] = 9 // a domain type none of the endpoints under test signs
+		f[1] = 9
+		return f
+	}
 	return d
 }
 
@@ -59,7 +65,9 @@ type environment struct {
 // setup builds the instance; `env` selects an adverse but fault-free condition:
 // 0 none, 1 account locked and passphrase unknown, 2 account locked and passphrase known,
 // 3 undecodable stored record, 4 store closed (shutdown in progress), 5 account cannot sign,
-// 6 domain of 31 bytes (the signing root cannot be computed after the rules approved).
+// 6 domain of 31 bytes (the signing root cannot be computed after the rules approved),
+// 7 (batches) the first entry carries a foreign domain type and is refused by the rules, so that
+//   refused and approved entries are mixed when a later step fails.
 func setup(ctx context.Context, env int, action byte) *environment {
 	e := &environment{log: &stubs.Log{}, dir: vsym.TempDir("A")}
 	if env == 3 {
@@ -105,7 +113,7 @@ func committedProp(ctx context.Context, e *environment, key [48]byte, slot uint6
 	return P == int64(slot)
 }
 
-const nEnv = 7
+const nEnv = 8
 
 func single(faults int, endpoint int) {
 	ctx := context.Background()
@@ -139,7 +147,7 @@ func single(faults int, endpoint int) {
 	if res == core.ResultSucceeded {
 		vsym.Reach("succeeded")
 		// generic signing consults no slashing-protection record, so a broken or closed store does not matter to it
-		vsym.Assert("F2-succeeded-only-in-a-benign-environment", env == 0 || env == 2 || (endpoint == 2 && (env == 3 || env == 4)))
+		vsym.Assert("F2-succeeded-only-in-a-benign-environment", env == 0 || env == 2 || (endpoint == 2 && (env == 3 || env == 4 || env == 7)))
 		vsym.Assert("F3-released-signature-is-the-accounts", signedFor(e.log, hc.KeyA, sig))
 		switch endpoint {
 		case 0:
@@ -210,7 +218,7 @@ func batch(faults int, n int, generic bool) {
 			if k < n {
 				vsym.Assert(fmt.Sprintf("F3-released-signature-is-the-accounts[%d]", k), signedFor(e.log, hc.Keys[k], sig))
 				if k == 0 {
-					vsym.Assert("F2-succeeded-only-in-a-benign-environment", env == 0 || env == 2 || (generic && (env == 3 || env == 4)))
+					vsym.Assert("F2-succeeded-only-in-a-benign-environment", env == 0 || env == 2 || (generic && (env == 3 || env == 4 || env == 7)))
 				}
 			} else {
 				vsym.Assert("B2-no-success-beyond-the-request", false)
